@@ -448,3 +448,28 @@ func (x *Exec) constStringBytes(s string) SliceV {
 	x.st.heap.m[o] = ArrayV{[]Value{}}
 	return SliceV{Obj: o, Off: bv64(0), Len: bv64(0), Cap: bv64(0), Nil: False()}
 }
+
+func init() {
+	// runtime.Caller: unspecified results (used for log decoration only)
+	extModels["runtime.Caller"] = func(x *Exec, fr *Frame, args []Value, pos token.Pos) Value {
+		n := len(x.inputs)
+		file := x.freshSymSlice("caller!file", 8, types.Typ[types.Uint8])
+		x.inputs = x.inputs[:n]
+		file.Str = true
+		return TupleV{E: []Value{Scalar{Fresh("caller!pc", BV(64))}, file, Scalar{Fresh("caller!line", BV(64))}, Scalar{Fresh("caller!ok", BoolSort)}}}
+	}
+	// path.Base: some string (log decoration only)
+	extModels["path.Base"] = func(x *Exec, fr *Frame, args []Value, pos token.Pos) Value {
+		n := len(x.inputs)
+		r := x.freshSymSlice("base", 8, types.Typ[types.Uint8])
+		x.inputs = x.inputs[:n]
+		r.Str = true
+		return r
+	}
+	// logrus.New / (*Logger).WithFields: non-nil objects (their content is irrelevant to the verified state)
+	extModels["github.com/sirupsen/logrus.New"] = func(x *Exec, fr *Frame, args []Value, pos token.Pos) Value {
+		o := x.newObject(nil, "logrus.Logger")
+		x.st.heap.m[o] = StructV{F: []Value{}}
+		return PtrV{Obj: o, Nil: False()}
+	}
+}
